@@ -34,16 +34,16 @@ BUDGET = {"quick": (260, 4), "thorough": (64000, 16)}
 REQUIRED = ["gens>=3", "alter", "restore", "nested", "nested_depth>=3", "sf", "new_format_added", "failed_recorded"]
 CLI = refhash.CLI_FORMATS
 
-FILES = ["a.txt", "sub/a.txt", "sub2/b.bin", "sub/b.bin", "sub/deep/c c.txt", "sub/deep/er/est/d.mov"]
-BASE = {"a.txt": "alpha", "sub/a.txt": "same relative path in the nested history", "sub2/b.bin": "beside the nested root", "sub/b.bin": ["00ff10", 3000],
+FILES = ["a.txt", "sub/a.txt", "cafe\u0301.txt", "sub2/b.bin", "sub/b.bin", "sub/deep/c c.txt", "sub/deep/er/est/d.mov", "sub/\u212bngstrom 100%.mov"]
+BASE = {"cafe\u0301.txt": "decomposed name", "sub/\u212bngstrom 100%.mov": "singleton + percent", "a.txt": "alpha", "sub/a.txt": "same relative path in the nested history", "sub2/b.bin": "beside the nested root", "sub/b.bin": ["00ff10", 3000],
         "sub/deep/c c.txt": "", "sub/deep/er/est/d.mov": "deepest"}
 ROOTS = ["sub", "sub/deep", "sub/deep/er", "sub/deep/er/est"]
 
 
 @st.composite
 def _scenario(draw):
-    nfiles = draw(st.integers(1, 6))
-    files = FILES[:nfiles] if draw(st.booleans()) else FILES[6 - nfiles:]
+    nfiles = draw(st.integers(1, 8))
+    files = FILES[:nfiles] if draw(st.booleans()) else FILES[8 - nfiles:]
     nested = []
     if draw(st.booleans()) and any(f.startswith("sub/") for f in files):
         # a chain of nested histories, created innermost or outermost first before anything else happens
